@@ -26,6 +26,7 @@ import (
 	"reflect"
 	"runtime/debug"
 	"strings"
+	"sync"
 
 	"github.com/go-python/gpython/py"
 )
@@ -447,10 +448,25 @@ func do_DELETE_SUBSCR(vm *Vm, arg int32) error {
 
 // Miscellaneous opcodes.
 
-// PrintExpr controls where the output of PRINT_EXPR goes which is
-// used in the REPL
+// PrintExpr controls where the output of PRINT_EXPR goes for the
+// contexts which haven't been given their own with SetPrintExpr
 var PrintExpr = func(out string) {
 	_, _ = os.Stdout.WriteString(out + "\n")
+}
+
+// printExprFor holds the PRINT_EXPR output of the contexts which have
+// their own (py.Context -> func(string))
+var printExprFor sync.Map
+
+// SetPrintExpr sets where the output of PRINT_EXPR goes for code
+// running in ctx, which is used in the REPL.  A nil print puts the
+// default back.
+func SetPrintExpr(ctx py.Context, print func(out string)) {
+	if print == nil {
+		printExprFor.Delete(ctx)
+	} else {
+		printExprFor.Store(ctx, print)
+	}
 }
 
 // Implements the expression statement for the interactive mode. TOS
@@ -472,7 +488,11 @@ func do_PRINT_EXPR(vm *Vm, arg int32) error {
 	if err != nil {
 		return err
 	}
-	PrintExpr(fmt.Sprint(repr))
+	print := PrintExpr
+	if p, ok := printExprFor.Load(vm.context); ok {
+		print = p.(func(string))
+	}
+	print(fmt.Sprint(repr))
 	vm.frame.Globals["_"] = value
 	return nil
 }
